@@ -33,6 +33,10 @@ type c14Case struct {
 	S0    *e2eSettings `json:"first_connection_settings,omitempty"` // reconnect stage
 	Cuts  []int        `json:"cuts,omitempty"`
 	One   bool         `json:"one_byte_reads,omitempty"`
+	// clear stage: what the marker must do, stated without the processor as reference
+	Kind string `json:"kind,omitempty"` // "ends-recording" | "restarts-detection"
+	K    int    `json:"marker_after_frame,omitempty"`
+	N    int    `json:"frames,omitempty"`
 }
 
 var c14Sentinel = []byte{0xA5, 0x5A, 0xC3, 0x3C, 0x0A, 0x0A, 0x20, 0x0A}
@@ -215,8 +219,109 @@ func runC14(c c14Case) (string, string) {
 		return runC14Header(c)
 	case "stream":
 		return runC14Stream(c)
+	case "clear":
+		return runC14Clear(c)
 	}
 	return runC14Static()
+}
+
+// runC14Clear: "each 'clear' marker is a camera reset that ends the current recording and restarts
+// detection" - absolute expectations (the stream stages compare with a MotionProcessor driven by the
+// harness, which would share a defect of MotionProcessor.Reset):
+//
+//	ends-recording:     motion in every frame, marker after frame K while the recording is open - no file
+//	                    may hold both frame K and frame K+1 (and some file must hold frame K);
+//	restarts-detection: a still scene whose level differs before and after the marker - nothing may be
+//	                    recorded (the first frame after a reset is never compared with an earlier one),
+//	                    while the same stream without the marker is recorded (control).
+var c14ClearControlOK int
+
+func runC14Clear(c c14Case) (string, string) {
+	return guard2("C14", func() (string, string) { return runC14Clear0(c) })
+}
+
+func frameIDs(path string) ([]int, error) {
+	d, err := decodeAll(path)
+	if err != nil {
+		return nil, err
+	}
+	var ids []int
+	for _, f := range d.frames {
+		if f.Status.BackgroundFrame {
+			continue
+		}
+		ids = append(ids, int(f.Pix[0][0])-100)
+	}
+	return ids, nil
+}
+
+func runC14Clear0(c c14Case) (string, string) {
+	s := c.S
+	build := func(withMarker bool) []e2eItem {
+		var items []e2eItem
+		level := uint16(2000)
+		for n := 1; n <= c.N; n++ {
+			if c.Kind == "ends-recording" {
+				if level == 2000 {
+					level = 3000
+				} else {
+					level = 2000
+				}
+			} else if n > c.K {
+				level = 3000
+			}
+			items = append(items, e2eItem{Frame: s.sceneFrame(n, level)})
+			if n == c.K && withMarker {
+				items = append(items, e2eItem{Clear: true})
+			}
+		}
+		return items
+	}
+	run := func(items []e2eItem) ([][]int, string) {
+		res, _ := s.runHandleConn(s.stream(items), nil, false)
+		defer os.RemoveAll(res.dir)
+		if res.err != io.EOF {
+			return nil, fmt.Sprintf("handleConn returned %v", res.err)
+		}
+		var all [][]int
+		for _, f := range res.files {
+			ids, err := frameIDs(f)
+			if err != nil {
+				return nil, fmt.Sprintf("%s: %v", filepath.Base(f), err)
+			}
+			all = append(all, ids)
+		}
+		return all, ""
+	}
+	files, errMsg := run(build(true))
+	if errMsg != "" {
+		return "C14:clear:connection-end", errMsg
+	}
+	if c.Kind == "ends-recording" {
+		open := false
+		for _, ids := range files {
+			hasK, hasK1 := false, false
+			for _, id := range ids {
+				hasK = hasK || id == c.K
+				hasK1 = hasK1 || id == c.K+1
+			}
+			open = open || hasK
+			if hasK && hasK1 {
+				return "C14:clear:recording-continues-across-marker", fmt.Sprintf("%d frames of motion, 'clear' after frame %d: a recording holds frames %v - the marker did not end it", c.N, c.K, ids)
+			}
+		}
+		if open {
+			c14ClearControlOK++
+		}
+		return "", ""
+	}
+	if len(files) != 0 {
+		return "C14:clear:detection-not-restarted", fmt.Sprintf("still scene at level 2000, 'clear' after frame %d, still scene at level 3000: recordings %v were made - frames were compared across the camera reset", c.K, files)
+	}
+	if ctl, _ := run(build(false)); len(ctl) > 0 {
+		c14ClearControlOK++
+	}
+	return "", ""
 }
 
 func c14Replay(cj []byte) []ev.Violation {
@@ -381,6 +486,19 @@ func TestVerifC14(t *testing.T) {
 		}
 		r.Bounds["all_cut_pairs_FCF"] = allPairs
 	}
+	// (b3) what a 'clear' marker must do, stated absolutely
+	clearCases := 0
+	sc := e2eSettings{Model: "boson", ResX: 5, ResY: 4, FPS: 1, Serial: 77, Firmware: "9.8.7", Min: 2, Max: 12, Preview: 1, Trigger: 1, DeviceName: "c14", DeviceID: 3, BucketSecs: 600}
+	for _, kind := range []string{"ends-recording", "restarts-detection"} {
+		for k := 2; k <= 7; k++ {
+			try(c14Case{Stage: "clear", S: sc, Kind: kind, K: k, N: 10}, 10)
+			clearCases++
+			streamRuns++
+			w.Nontrivial++
+		}
+	}
+	r.Bounds["clear_semantics_cases"] = clearCases
+	r.Extra["clear_semantics_cases_with_control_satisfied"] = c14ClearControlOK
 	// (b2) the camera reconnects to the same daemon instance with another frame size (larger first, then smaller,
 	// and the reverse); markers in the second stream
 	big := s
@@ -394,7 +512,7 @@ func TestVerifC14(t *testing.T) {
 		}
 	}
 	r.Bounds["stream_runs"] = streamRuns
-	r.Rule = "(a) headers.ReadHeaderInfo on a shared bufio.Reader: every camera description of the product resolutions x fps {1,9,60} x models x serials {0,1,12345,2^31-1} x firmware strings (incl. YAML-hostile ones), encoded exactly as the camera daemon does (yaml.v1 Marshal of the map keyed by the headers constants + newline), with a sentinel after the blank line, and EVERY truncation point of a subset; (b) the real handleConn on an in-memory connection: every arrangement of 3 (and 6 thorough) frames with <=2 'clear' markers at any gap, read greedily, one byte at a time, with every single cut point of the byte stream and every pair of cut points around the header end and the markers (thorough: for the arrangement frame-marker-frame EVERY pair of cut points); files produced are compared with the recordings predicted by driving a real MotionProcessor directly (frames once, in order, reset at each marker); (b2) the camera reconnecting to the same daemon instance with a larger/smaller/equal frame size; (c) static extraction: marker constant and header keys of both daemons. Non-trivial = every case."
+	r.Rule = "(a) headers.ReadHeaderInfo on a shared bufio.Reader: every camera description of the product resolutions x fps {1,9,60} x models x serials {0,1,12345,2^31-1} x firmware strings (incl. YAML-hostile ones), encoded exactly as the camera daemon does (yaml.v1 Marshal of the map keyed by the headers constants + newline), with a sentinel after the blank line, and EVERY truncation point of a subset; (b) the real handleConn on an in-memory connection: every arrangement of 3 (and 6 thorough) frames with <=2 'clear' markers at any gap, read greedily, one byte at a time, with every single cut point of the byte stream and every pair of cut points around the header end and the markers (thorough: for the arrangement frame-marker-frame EVERY pair of cut points); files produced are compared with the recordings predicted by driving a real MotionProcessor directly (frames once, in order, reset at each marker); (b3) absolute 'clear' semantics (the reference of (b) shares MotionProcessor.Reset): with motion in every frame and the marker after frame K=2..7 no file may hold both frame K and K+1; a still scene whose level changes only across the marker must not be recorded, while the same stream without the marker is (control); (b2) the camera reconnecting to the same daemon instance with a larger/smaller/equal frame size; (c) static extraction: marker constant and header keys of both daemons. Non-trivial = every case."
 	r.Assumptions = []string{"sendCameraSpecs itself needs camera hardware; its encoder is reproduced (3 lines) and bound to the source by the static key/marker extraction", "serial numbers beyond the platform int are out of scope"}
 	finish(t, r)
 }
